@@ -1258,15 +1258,16 @@ void new_interactive (socket_fd_t socket_fd) {
   }
 
   if (i >= max_users) {
+    int new_max = max_users + 50;
     if (all_users) {
       /* allocate 50 more user slots */
-      all_users = RESIZE (all_users, max_users + 50, interactive_t *, TAG_USERS, "new_user_handler");
+      all_users = RESIZE (all_users, new_max, interactive_t *, TAG_USERS, "new_user_handler");
     }
     else {
       /* first time allocation */
-      all_users = CALLOCATE (50, interactive_t *, TAG_USERS, "new_user_handler");
+      all_users = CALLOCATE (new_max, interactive_t *, TAG_USERS, "new_user_handler");
     }
-    while (max_users < i + 50)
+    while (max_users < new_max)
       all_users[max_users++] = 0;
   }
 
